@@ -130,3 +130,4 @@ META["C18"] = dict(
 HOOK_COMMITS.append("69be644")
 HOOK_COMMITS.append("655814b")
 HOOK_COMMITS.append("f73ad0c")
+HOOK_COMMITS.append("e1005ee")
